@@ -626,8 +626,42 @@ def run_pred(data: dict, stats=None) -> tuple | None:
     raise ValueError(kind)
 
 
+def refused_read(ctx: Ctx) -> None:
+    """the analyses on a network restored the way a restart script does it: the newest checkpoint is incomplete and
+    refused, the older one is read into the same object — the component of the lowest minimum and the hierarchy must be
+    those of the older checkpoint (minima left behind by the refused read would show up in both)"""
+    from props import c06
+    from topsearch.analysis import graph_properties as gp
+    for i in range(ctx.scale(6, 30)):
+        why, k, spec_b, rep = c06.failed_read_case(ctx.rng, missing=c06.TABLE_FILES[i % 5] if i < 5 else None, into_fresh=True)
+        ctx.stats.case({"stream": "predicate-refused-read", "missing": rep["failed_read"]["missing"]}, True)
+        if not why:
+            # the analysis itself, against a flood fill written here
+            n = spec_b["n"]
+            adj = {i_: set() for i_ in range(n)}
+            for u, v, _c, _e in spec_b["ts"]:
+                adj[u].add(v); adj[v].add(u)
+            en = [round(e, 5) for _c, e in spec_b["minima"]]
+            if len(set(en)) == len(en):
+                lowest = min(range(n), key=lambda q: en[q])
+                seen, todo = {lowest}, [lowest]
+                while todo:
+                    a = todo.pop()
+                    for b in adj[a]:
+                        if b not in seen:
+                            seen.add(b); todo.append(b)
+                got = {int(x) for x in gp.unconnected_component(k)}
+                if got != set(range(n)) - seen:
+                    why = (f"unconnected_component on the restored network gives {sorted(got)}, the minima not connected to "
+                           f"the lowest one are {sorted(set(range(n)) - seen)}")
+        if why:
+            ctx.fail("analyses:after-refused-read", why, rep)
+            return
+
+
 def predicates(ctx: Ctx) -> None:
     rng = ctx.rng
+    refused_read(ctx)
     for kind, data in CORPUS:
         r = run_pred({"pred": kind, **data}, ctx.stats)
         ctx.stats.case({"stream": "predicate-corpus", "kind": kind}, True)
@@ -680,6 +714,9 @@ def predicates(ctx: Ctx) -> None:
 
 
 def replay(ctx: Ctx, data: dict) -> bool:
+    if "failed_read" in data:
+        from props import c06
+        return c06.replay(ctx, data)
     if data.get("pred") not in ("unconnected", "height", "hierarchy", "roughness") or "spec" not in data:
         # a model/implementation divergence or a broken obligation: re-run the whole check
         print("  (not a property-failure replay; run ./check C18)")
